@@ -63,6 +63,28 @@ NASTY = [
     "pub fn main(x: u8) -> u8 { for i in x { } x }",
     "pub fn main(x: [(u8, u8); 2], y: [(u16, u8); 2]) -> u8 { for joined in join(x, y) { } 0u8 }",
     "pub fn main(x: [u8; 2], y: [u8; 3]) -> [(bool, u8); const { 2 + 3 - 1usize }] { join(x, y) }",
+    # empty groups: what is left when the content of a bracket pair is removed
+    "pub fn main(x: u8) -> u8 { match x {} }",
+    "pub fn main(x: bool) -> u8 { let z = match x { }; 1u8 }",
+    "pub fn main(x: u8) -> u8 { }",
+    "pub fn main(x: u8) -> u8 { if x == 1u8 { } else { } }",
+    "pub fn main(x: u8) -> u8 { let a = []; x }",
+    "pub fn main(x: u8) -> u8 { let a = [x; ]; x }",
+    "pub fn main(x: u8) -> u8 { let a = (); x }",
+    "pub fn main(x: u8) -> u8 { f() }\nfn f() -> u8 { 1u8 }",
+    "struct S {}\npub fn main(x: u8) -> S { S {} }",
+    "enum E {}\npub fn main(x: E) -> u8 { match x {} }",
+    "enum E { A() }\npub fn main(x: u8) -> E { E::A() }",
+    "pub fn main(x: u8) -> u8 { for i in [] { } x }",
+    "pub fn main(x: [u8; 2]) -> u8 { x[] }",
+    "pub fn main(x: (u8, u8)) -> u8 { let () = x; 1u8 }",
+    "pub fn main(x: u8) -> u8 { match x { _ => {} } }",
+    "pub fn main(x: u8) -> u8 { match x { , } }",
+    "pub fn main(x: u8) -> u8 { match x { 1u8 => 2u8,, _ => 3u8 } }",
+    "pub fn main() -> u8 { 1u8 }",
+    "pub fn main(x: u8) { x }",
+    "pub fn main(x: u8) -> { x }",
+    "const N: usize = ;\npub fn main(x: u8) -> u8 { x }",
     # regression corpus (past model / implementation disagreements)
     "a\r", "a\r\nb\r", "pub fn main(x: u8) -> u8 {\r\n  x +\r",
     "pub fn main(x: u8) -> u8 { let a = 2; x >> a }",
@@ -75,6 +97,17 @@ def tokens_of(src):
     return [m.group(0) for m in TOKEN_RE.finditer(src)]
 
 
+def groups(toks):
+    """index pairs of matching brackets"""
+    out, stack = [], []
+    for i, t in enumerate(toks):
+        if t in ("(", "[", "{"):
+            stack.append(i)
+        elif t in (")", "]", "}") and stack:
+            out.append((stack.pop(), i))
+    return out
+
+
 def perturb(rng, src, n):
     toks = tokens_of(src)
     sig = [i for i, t in enumerate(toks) if not t.isspace()]
@@ -82,7 +115,8 @@ def perturb(rng, src, n):
     if not sig:
         return out
     for _ in range(n):
-        kind = rng.choice(["prefix", "delete", "dup", "swap", "subst", "insert", "charprefix", "subst-class", "subst-class", "subst-class"])
+        kind = rng.choice(["prefix", "delete", "dup", "swap", "subst", "insert", "charprefix", "subst-class", "subst-class", "subst-class",
+                           "empty-group", "empty-group", "delete-group", "delete-item", "dup-item"])
         t = list(toks)
         if kind == "prefix":
             k = rng.choice(sig)
@@ -99,6 +133,33 @@ def perturb(rng, src, n):
         elif kind == "swap" and len(sig) >= 2:
             i, j = rng.sample(sig, 2)
             t[i], t[j] = t[j], t[i]
+            out.append((kind, "".join(t)))
+        elif kind in ("empty-group", "delete-group", "delete-item", "dup-item"):
+            g = groups(t)
+            if not g:
+                continue
+            i, j = rng.choice(g)                      # t[i] opens, t[j] closes
+            if kind == "empty-group":
+                t[i + 1:j] = [" "]
+            elif kind == "delete-group":
+                del t[i:j + 1]
+            else:
+                # the comma-separated items directly inside the group
+                cuts, depth = [i], 0
+                for k in range(i + 1, j):
+                    if t[k] in "([{":
+                        depth += 1
+                    elif t[k] in ")]}":
+                        depth -= 1
+                    elif t[k] == "," and depth == 0:
+                        cuts.append(k)
+                cuts.append(j)
+                n = rng.randrange(len(cuts) - 1)
+                a, b = cuts[n] + 1, cuts[n + 1]
+                if kind == "delete-item":
+                    del t[a:b + (1 if b < j else 0)]
+                else:
+                    t[a:a] = t[a:b] + [","]
             out.append((kind, "".join(t)))
         elif kind == "subst-class":
             # replace a token by another of the same class, so that most results still parse
